@@ -208,7 +208,7 @@ class C16Check(object):
             "fmm.near_field_representation": r.choice(["evaluate", "sparse"]),
             "fmm.dense_evaluation": r.random() < 0.5,
         }
-        case["npoints"] = r.choice([2, 3, 5])
+        case["npoints"] = r.choice([2, 3, 5, 9, 20])
         case["vseed"] = r.randrange(1 << 30)
         case["repeat"] = r.random() < 0.3
         quick = self.tier == "quick"
